@@ -276,7 +276,10 @@ fn main() {
     }
 
     // build and run the child (real generator in its build script)
-    let dir = std::path::Path::new(env!("CARGO_MANIFEST_DIR")).join("c36gen");
+    // (VERIF_C36GEN_DIR: a scratch copy of the crate, used only to test that the check detects seeded bugs)
+    let dir = std::env::var("VERIF_C36GEN_DIR")
+        .map(std::path::PathBuf::from)
+        .unwrap_or_else(|_| std::path::Path::new(env!("CARGO_MANIFEST_DIR")).join("c36gen"));
     let _ = std::fs::copy("/repo/Cargo.lock", dir.join("Cargo.lock"));
     let b = std::process::Command::new("cargo")
         .args(["build", "--offline", "--quiet"])
